@@ -5,7 +5,7 @@ import common
 from common import Outcome, frac_str, classify_exc
 
 KINDS = ['', '_in_', '_not_in_', '_is_none_', '_is_not_none_', '_ne_', '_lt_', '_le_', '_gt_', '_ge_', '_like_', '_not_like_']
-ATTRS = ['prio', 'tag', 'id', 'parent_id', 'estimate', 'spent', 'name', 'x_in_', 'missing', 'clone']
+ATTRS = ['prio', 'tag', 'id', 'parent_id', 'estimate', 'spent', 'name', 'x_in_', 'missing', 'clone', 'mark2']
 PATS = ['a', '^a', 'b$', 'a.c', '[0-9]', 'zz', '']
 STRS = ['abc', 'a', 'bca', 'a1c', '', 'zz9']
 NUMS = ['0', '1', '2', '3', '5/2', '8']
@@ -70,6 +70,8 @@ def random_case(prop, rng, tier):
                   'parent_id': None if src['parent'] is None else ['n', str(tasks[src['parent']]['id'])]}.get(a, src['dict'].get(a))
             if pv is not None:
                 v = ['one', pv]
+        if a == 'mark2' and v[0] == 'one' and rng.random() < 0.7:
+            v = ['one', ['s', 'second']]       # (the mark that tells the tasks of the second WBS from their id twins in a mixed dependency list)
         filters.append([a + k, v])
     # distinct keywords only (kwargs)
     seen, fs = set(), []
@@ -81,7 +83,7 @@ def random_case(prop, rng, tier):
         # a callable filter (applied as a predicate); the keyword filters are not used then
         return {'tasks': tasks, 'filters': [], 'source': rng.choice(['tasks', 'roots', 'children0']), 'action': 'query', 'floats': False,
                 'key': rng.choice([['id_mod', rng.randrange(2, 4)], ['has', rng.choice(['prio', 'tag'])], ['leaf'], ['const', rng.random() < 0.5]])}
-    return {'tasks': tasks, 'filters': fs, 'source': rng.choice(['tasks', 'roots', 'children0', 'tasks', 'preds']),
+    return {'tasks': tasks, 'filters': fs, 'source': rng.choice(['tasks', 'roots', 'children0', 'tasks', 'preds', 'succs']),
             'action': rng.choice(['query', 'query', 'bulk', 'remove']), 'floats': rng.random() < 0.4}
 
 
@@ -119,7 +121,7 @@ def snapshot(w, objs):
 
 def execute(prop, case):
     w, objs = build(case)
-    if case['source'] == 'preds':
+    if case['source'] in ('preds', 'succs'):
         # a list that is not a view of one tree: the predecessors of a free-standing task, drawn from this WBS and from a second WBS
         # built from the same case - different task objects sharing ids, in one list
         from pjplan import Task
@@ -127,9 +129,14 @@ def execute(prop, case):
         for o in objs_b[::2]:
             o.mark2 = 'second'
         hub = Task(99999, 'hub')
-        hub.predecessors = [x for pair in zip(objs, objs_b) for x in pair][:len(objs) + 2]
+        mixed = [x for pair in zip(objs, objs_b) for x in pair][:len(objs) + 2]
         objs = objs + objs_b
-        src = hub.predecessors
+        if case['source'] == 'preds':
+            hub.predecessors = mixed
+            src = hub.predecessors
+        else:
+            hub.successors = mixed
+            src = hub.successors
     else:
         src = w.tasks if case['source'] == 'tasks' else (w.roots if case['source'] == 'roots' else max(objs, key=lambda o: len(o.children)).children)
     src_list = list(src)
@@ -171,13 +178,14 @@ def execute(prop, case):
     if matched is not None and case['action'] == 'bulk':
         res.mark = 'M'
         rec['extra'] = all(('mark' in o.__dict__) == (any(o is m for m in matched)) for o in objs)
-    elif matched is not None and case['action'] == 'remove' and case['source'] == 'preds':
-        # remove_all on a dependency list: exactly the matching tasks leave the list (and lose the hub as successor), and are returned
+    elif matched is not None and case['action'] == 'remove' and case['source'] in ('preds', 'succs'):
+        # remove_all on a dependency list: exactly the matching tasks leave the list (and lose the hub on their mirror side), and are returned
         ret = src.remove_all(**kwargs)
-        left = list(hub.predecessors)
+        left = list(hub.predecessors if case['source'] == 'preds' else hub.successors)
         want = [o for o in src_list if not any(o is m for m in matched)]
+        mirror = (lambda o: o.successors) if case['source'] == 'preds' else (lambda o: o.predecessors)
         rec['extra'] = [id(o) for o in ret] == [id(o) for o in matched] and [id(o) for o in left] == [id(o) for o in want] and \
-            all(any(s is hub for s in o.successors) == (not any(o is m for m in matched)) for o in src_list)
+            all(any(s is hub for s in mirror(o)) == (not any(o is m for m in matched)) for o in src_list)
     elif matched is not None and case['action'] == 'remove' and case['source'] in ('tasks', 'roots'):
         shape = {id(o): (o.parent, [id(c) for c in o.children]) for o in objs}
         if case['source'] == 'tasks':
